@@ -391,7 +391,10 @@ impl Continuous<f64, f64> for Triangular {
         let a = self.min;
         let b = self.max;
         let c = self.mode;
-        if a <= x && x <= c {
+        if x == c {
+            // both branches meet here; written out so that mode == min or mode == max is not 0/0
+            2.0 / (b - a)
+        } else if a <= x && x < c {
             2.0 * (x - a) / ((b - a) * (c - a))
         } else if c < x && x <= b {
             2.0 * (b - x) / ((b - a) * (b - c))
